@@ -141,7 +141,11 @@ func mediaAcceptable(r Range, offer string) bool {
 	return true
 }
 
-func tokenAcceptable(r Range, offer string) bool { return r.Spec == "*" || r.Spec == offer }
+// tokenAcceptable: the range names the offer, or a more specific tag of it ("fr-CH" is served by the offer "fr");
+// a token that merely starts with the offer's letters ("fil" / "fi", "iso-8859-15" / "iso-8859-1") is another token
+func tokenAcceptable(r Range, offer string) bool {
+	return r.Spec == "*" || r.Spec == offer || strings.HasPrefix(r.Spec, offer+"-")
+}
 
 func specificity(spec string) int {
 	switch {
@@ -312,7 +316,9 @@ func check(c Case) vk.Verdict {
 
 var mimes = []string{"text/html", "text/plain", "application/json", "image/png", "application/xml", "text/css", "text/csv", "image/gif", "image/jpeg", "application/pdf",
 	"application/zip", "audio/mpeg", "video/mp4", "font/woff2", "text/markdown", "application/yaml"}
-var tokens = []string{"utf-8", "gzip", "br", "en", "de", "iso-8859-1", "zstd", "fr", "es", "it", "pt", "nl", "sv", "da", "fi", "pl", "cs", "hu", "ja", "ko"}
+var tokens = []string{"utf-8", "gzip", "br", "en", "de", "iso-8859-1", "zstd", "fr", "es", "it", "pt", "nl", "sv", "da", "fi", "pl", "cs", "hu", "ja", "ko",
+	// look-alikes: sub-tags of a listed token, and tokens that only start with the letters of another one
+	"fr-CH", "en-US", "fil", "iso-8859-15", "deflate", "es-419", "zh", "zh-Hant"}
 var qPool = []string{"0", "0.0", "0.000", "0.001", "0.1", "0.5", "0.50", "0.9", "0.999", "1", "1.0", "1.000"}
 var pnames = []string{"charset", "level", "v", "title"}
 var pvals = []string{"utf-8", "1", "2", `"a b"`, `"1"`, "UTF-8", `"x,y"`, `"x\"y"`, `"q\\"`}
